@@ -1428,6 +1428,14 @@ def _partial_cmp_ops(I, f, a):
     x, y = deref(I, a[0]), deref(I, a[1])
     name = f["path"].split("::")[-1]
     op = {"ge": "Ge", "gt": "Gt", "le": "Le", "lt": "Lt", "ne": "Ne", "eq": "Eq"}[name]
+    if hasattr(x, "variants") and hasattr(x, "resolve"):
+        x = x.resolve(I)[1]
+        if isinstance(y, Agg) and not y.fields:
+            y = y.discr
+    if hasattr(y, "variants") and hasattr(y, "resolve"):
+        y = y.resolve(I)[1]
+        if isinstance(x, Agg) and not x.fields:
+            x = x.discr
     if isinstance(x, Agg) and isinstance(y, Agg):
         if not x.fields and not y.fields:
             return I.binop(op, x.discr, y.discr, "isize")
